@@ -15,6 +15,7 @@ import FM.Model.TagSeg
 import FM.Model.Scan
 import FM.Model.FullWrap
 import FM.Model.Transforms
+import FM.Model.Route
 /-
   One operation per input line, one canonical answer per output line.
 -/
@@ -157,6 +158,27 @@ def step (line : String) : String :=
         | .append p _ => s!"a{p}"
         | .rename a b => s!"r{a}-{b}"
       String.intercalate ";" (jobs.flatten.map show1)
+  | ["route", fs, out, ip, nb] =>
+      -- files: comma-separated "-" / file ids; out: "none" / "-" / file id
+      let parts := if fs.isEmpty then [] else fs.splitOn ","
+      let args : List (Option FM.Route.Arg) := parts.map fun t =>
+        if t == "-" then some .stdin else (decNat t).map .file
+      let outv : Option FM.Route.Out :=
+        if out == "none" then some .none else if out == "-" then some .stdout else (decNat out).map .path
+      match args.mapM id, outv, decBool ip, decBool nb with
+      | some args, some outv, some ip, some nb =>
+        let showArg : FM.Route.Arg → String
+          | .stdin => "-"
+          | .file i => toString i
+        match FM.Route.reformatFiles args outv ip nb with
+        | .error .inplaceStdin => "E:inplaceStdin"
+        | .error .outputMulti => "E:outputMulti"
+        | .ok acts =>
+          let showAct : FM.Route.Action → String
+            | .toStdout s => s!"S{showArg s}"
+            | .toFile s t b => s!"F{showArg s}>{t}:{if b then "b" else "n"}"
+          String.intercalate ";" (acts.map showAct)
+      | _, _, _, _ => bad
   | ["interrupts", ws] => match decList ws with
       | some ws => encBool (interruptsPara ws)
       | none => bad
